@@ -2,7 +2,6 @@
 // Compiled inside `crate::server::conn::auto::verif_replays` (feature verif-hooks, test builds).
 use super::*;
 use std::collections::VecDeque;
-use std::future::Future as _;
 use std::mem::MaybeUninit;
 use std::pin::Pin;
 use std::task::{Context, Poll, Waker};
